@@ -151,3 +151,15 @@ Proof.
   repeat (split; [vm_compute; reflexivity|]).
   eexists. eexists. split; [vm_compute; reflexivity|]. vm_compute. repeat split; reflexivity.
 Qed.
+
+(* ---- hypotheses of C41_ldap_substring_superset: a three-part assertion the standard evaluates to
+   TRUE on "aba" (a, then b, then a, in order and disjoint) *)
+Example C41_witness_substring_superset :
+  let f := LSub (s "name") (Some (s "a")) [s "b"] (Some (s "A")) in
+  (exists g l, from_ldap wsch wpop 12 32 f = Ok (g, l) /\ fmatch wsch w_aba g = true) /\
+  ldap_sem wsch wpop w_aba f = TT /\ ldap_sem wsch wpop w_ab f = FF.
+Proof.
+  split.
+  - eexists. eexists. split; vm_compute; reflexivity.
+  - vm_compute. split; reflexivity.
+Qed.
